@@ -404,6 +404,15 @@ def eventToCall : Event (APt S) → Call (Pt S) (List S)
 def PathData.reversedIntoPath (p : PathData S) : Option (PathData S) :=
   p.reversedWithAttributes.bind fun evs => buildWithAttributes p.numAttributes (evs.map eventToCall)
 
+/-! ### `as_slice` -/
+
+/-- `Path::as_slice`: `PathSlice { points: &self.points[..], verbs: &self.verbs[..],
+num_attributes }`.  `PathSlice` has the same three fields and its views call the same iterator
+constructors, so it is the same `PathData` in the model. -/
+def PathData.asSlice (p : PathData S) : Option (PathData S) :=
+  (sliceRange p.points 0 p.points.length).bind fun pts =>
+    (sliceRange p.verbs 0 p.verbs.length).map fun vs => ⟨pts, vs, p.numAttributes⟩
+
 /-! ### `first_endpoint`, `last_endpoint` -/
 
 /-- outer `Option`: in bounds; inner: the function's own `Option` result -/
